@@ -15,6 +15,9 @@ pub struct Opts {
     pub output_format: Option<String>,
     pub verify: bool,
     pub verbose: bool,
+    /// --color value as spelt (None = not given)
+    #[serde(default)]
+    pub color: Option<String>,
     pub config_path: Option<String>,
     pub search_parents: bool,
     pub no_editorconfig: bool,
@@ -44,6 +47,10 @@ impl Opts {
         }
         if self.verbose {
             a.push("--verbose".into());
+        }
+        if let Some(c) = &self.color {
+            a.push("--color".into());
+            a.push(c.clone());
         }
         if let Some(p) = &self.config_path {
             a.push("--config-path".into());
